@@ -273,7 +273,7 @@ fn cycles_base(rng: &mut Rng, cfg: &mut SimCfg, n: usize, tick_ms: u64) -> Net {
     let horizon = run_ticks * tick_ms;
     let nb = rng.usize(3, 16);
     let nc = *rng.pick(&[0usize, 0, 1, 2, 3]);
-    let (udp, conns) = gen_traffic(rng, n, tick_ms, horizon, nb, nc);
+    let (mut udp, mut conns) = gen_traffic(rng, n, tick_ms, horizon, nb, nc);
     let mut script: Vec<(u32, Act)> = Vec::new();
     let mut hacts: Vec<HostAct> = Vec::new();
     let cycles = rng.usize(1, 3);
@@ -308,7 +308,41 @@ fn cycles_base(rng: &mut Rng, cfg: &mut SimCfg, n: usize, tick_ms: u64) -> Net {
         };
         let (ha, hb) = sels(rng);
         put(rng, s_h, Act::Hold(ha, hb));
-        if rng.chance(5, 6) {
+        if rng.chance(2, 5) {
+            // release directly followed by a new hold of the same link, 1-3 times, with no step (Sim handle)
+            // and no await or send (host code) in between: the released messages are still in flight
+            // when the next hold is called. Make sure something is held on the link by then.
+            let lo = (s_h.max(2) as u64 - 1) * tick_ms;
+            let hi = ((s_r as u64 - 1) * tick_ms).max(lo + 1) - 1;
+            for (x, y) in [(a, b), (b, a)] {
+                if x == a || rng.bool() {
+                    udp.push(UdpBurst { from: x, to: y, at_ms: rng.range(lo, hi), count: rng.range(1, 3) as u32, by_ip: rng.chance(1, 3) });
+                }
+            }
+            if rng.chance(1, 4) {
+                let at = rng.range(lo, hi);
+                conns.push(Conn { from: a, to: b, at_ms: at, c2s: vec![(at, 1)], s2c: vec![], fin_c: None, fin_s: None, by_ip: false });
+            }
+            let mut seq = Vec::new();
+            for _ in 0..rng.usize(1, 3) {
+                let (ra, rb) = if rng.bool() { (Sel::Name(a), Sel::Name(b)) } else { sels(rng) };
+                seq.push(Act::Release(ra, rb));
+                let (ha, hb) = if rng.chance(2, 3) { (gen_sel(rng, b), gen_sel(rng, a)) } else { sels(rng) };
+                seq.push(Act::Hold(ha, hb));
+            }
+            if rng.chance(1, 3) {
+                // as separate controller actions of one slot (Sim::links is sampled between them)
+                for act in seq {
+                    script.push((s_r, act));
+                }
+            } else {
+                put(rng, s_r, Act::Seq(seq));
+            }
+            if rng.chance(5, 6) {
+                let (ra, rb) = if rng.bool() { (Sel::Name(a), Sel::Name(b)) } else { sels(rng) };
+                put(rng, s_r + rng.range(1, 5) as u32, Act::Release(ra, rb));
+            }
+        } else if rng.chance(5, 6) {
             let (ra, rb) = if rng.bool() { (Sel::Name(a), Sel::Name(b)) } else { sels(rng) };
             put(rng, s_r, Act::Release(ra, rb));
         }
@@ -318,7 +352,7 @@ fn cycles_base(rng: &mut Rng, cfg: &mut SimCfg, n: usize, tick_ms: u64) -> Net {
             put(rng, s_h + 1, Act::Hold(ha, hb));
         }
     }
-    let fin = (run_ticks + 9) as u32;
+    let fin = (run_ticks + 14) as u32;
     script.push((fin, Act::Release(Sel::All, Sel::All)));
     script.sort_by_key(|(s, _)| *s);
     let tick = cfg.tick_us;
